@@ -5,5 +5,5 @@ CONSTANTS
   ReadFullSem = TRUE
 INIT Init
 NEXT Next
-INVARIANTS StreamSound ClosedForm IdAgrees IdShape
+INVARIANTS StreamSound ClosedForm HdrClosedForm IdAgrees IdShape
 CHECK_DEADLOCK FALSE
